@@ -84,10 +84,10 @@ def binop(ctx, opcls, a, b):
         rt = result_type("/", ta, tb)
         if rt is np.float64:
             # numpy scalars do not raise on division by zero (warning + inf/nan); outside A-REAL
-            if ctx.branch(y == 0):
+            if ctx.branch(y == 0, strong=True):
                 raise Unsupported("numpy float division by zero (inf/nan outside the model)")
         else:
-            if ctx.branch(y == 0):
+            if ctx.branch(y == 0, strong=True):
                 raise PyExc(ZeroDivisionError, ("float division by zero",))
         return mk(x / y, rt)
     if opcls in (ast.FloorDiv, ast.Mod):
@@ -225,22 +225,47 @@ def msqrt(ctx, a, np_style=False, nonneg=False):
         return np.sqrt(a) if np_style else math.sqrt(a)
     from .poly import canon
 
-    t = z3.simplify(canon(z3.simplify(real_term(a))))  # canonical polynomial: equal radicands become identical terms
+    raw = z3.simplify(real_term(a))
+    if not nonneg and _is_sum_of_squares(raw):
+        nonneg = True
+    t = z3.simplify(canon(raw))  # canonical polynomial: equal radicands become identical terms
     if not nonneg and ctx.branch(t < 0):
         if np_style:
             raise Unsupported("numpy sqrt of a negative number (nan outside the model)")
         raise PyExc(ValueError, ("math domain error",))
     r = SQRT(t)
-    ctx.solver.add(r >= 0, r * r == t)
+    ctx.solver.add(r >= 0)
+    ctx.lazy_axioms.append(r * r == t)
     ctx.used_models.add("sqrt: sqrt(t) >= 0 and sqrt(t)^2 == t")
     return Sym(r, np.float64 if np_style else float)
+
+
+def _is_sum_of_squares(t):
+    """syntactic check: a sum whose summands are squares (x*x, x**2) or non-negative numerals"""
+    def sq(e):
+        if z3.is_rational_value(e) or z3.is_int_value(e):
+            return e.numerator_as_long() >= 0 if z3.is_rational_value(e) else e.as_long() >= 0
+        if z3.is_app(e) and e.decl().kind() == z3.Z3_OP_MUL:
+            ch = e.children()
+            if len(ch) == 2 and ch[0].eq(ch[1]):
+                return True
+            if len(ch) == 3 and (z3.is_rational_value(ch[0])) and ch[0].numerator_as_long() >= 0 and ch[1].eq(ch[2]):
+                return True
+        if z3.is_app(e) and e.decl().kind() == z3.Z3_OP_POWER:
+            n = e.arg(1)
+            return (z3.is_int_value(n) and n.as_long() % 2 == 0) or (z3.is_rational_value(n) and n.denominator_as_long() == 1 and n.numerator_as_long() % 2 == 0)
+        return False
+    if z3.is_app(t) and t.decl().kind() == z3.Z3_OP_ADD:
+        return all(sq(c) for c in t.children())
+    return sq(t)
 
 
 def mhypot(ctx, a, b, np_style=False):
     x, y = real_term(a), real_term(b)
     t = z3.simplify(x * x + y * y)
     r = SQRT(t)
-    ctx.solver.add(r >= 0, r * r == t)
+    ctx.solver.add(r >= 0)
+    ctx.lazy_axioms.append(r * r == t)
     ctx.used_models.add("hypot(x,y) = sqrt(x^2+y^2)")
     return Sym(r, np.float64 if np_style else float)
 
